@@ -1,5 +1,5 @@
 CONSTANTS
-  Models = {"pheno", "mox2", "phenoexp"}
+  Models = {"pheno", "mox2", "phenoexp", "pheno2dv"}
   MaxHist = 9
   Groups = {"cov", "eta", "err", "abs"}
 INIT TraceInit
